@@ -16,7 +16,7 @@ def regen_check(ctx, group, equiv_name):
             os.remove(gen_v[:-2] + ext)
         except OSError:
             pass
-    r = subprocess.run([sys.executable, os.path.join(V, "gen", "py2coq.py"), "/repo", os.path.join(V, "gen", "signatures.json"), group, gen_v],
+    r = subprocess.run([sys.executable, os.path.join(V, "gen", "py2coq.py"), os.environ.get("VERIF_REPO", "/repo"), os.path.join(V, "gen", "signatures.json"), group, gen_v],
                        capture_output=True, text=True, timeout=120)
     src = open(os.path.join(V, "coq", "gen", equiv_name + ".v")).read()
     src_nc = re.sub(r"\(\*.*?\*\)", " ", src, flags=re.S)
